@@ -202,10 +202,11 @@ Definition promote (a b : idt) : option idt :=
                    match a with U8 => Some I16 | U16 => Some I32 | U32 => Some I64 | _ => None end
   end.
 
-(* phylib.io.merge._int_dtype(dtype, max_value) *)
+(* phylib.io.merge._int_dtype(dtype, max_value): dtype itself when it holds max_value, else promoted with the smallest
+   type of the same signedness that holds it (the smallest signed type holding v is the one holding -v - 1) *)
 Definition int_dtype (d : idt) (mx : Z) : option idt :=
   if mx <=? dt_max d then Some d else
-  match min_scalar_type mx with Some b => promote d b | None => None end.
+  match min_scalar_type (if dt_signed d then - mx - 1 else mx) with Some b => promote d b | None => None end.
 
 (* arr.astype(d) + off with a Python int off: OverflowError when off is out of bounds for d, otherwise computed in d *)
 Definition shift_dt (d : idt) (off : Z) (ids : list Z) : option (list Z) :=
